@@ -239,6 +239,14 @@ theorem derived_answers_independent_of_operand_cells {γ ι ν : Type} [Decidabl
     (LazyObj.reads g (o₁.derive op) qs).2 = (LazyObj.reads g (o₂.derive op) qs).2 := by
   rw [reads_derive, reads_derive, hcore]
 
+/-- the hypothesis is satisfiable non-trivially: a cold operand and one whose `_sequence` cell is filled share their
+    constructor data and differ in their cells -/
+example : (LazyObj.fresh (⟨1, 3, false, some ['A', 'C', 'G', 'T']⟩ : SICore) : LazyObj SICore SIAttr (Option (List Char))).core
+      = (LazyObj.reads siAttr (LazyObj.fresh ⟨1, 3, false, some ['A', 'C', 'G', 'T']⟩) [.sequence]).1.core ∧
+    (LazyObj.fresh (⟨1, 3, false, some ['A', 'C', 'G', 'T']⟩ : SICore) : LazyObj SICore SIAttr (Option (List Char))).slot .sequence
+      ≠ (LazyObj.reads siAttr (LazyObj.fresh ⟨1, 3, false, some ['A', 'C', 'G', 'T']⟩) [.sequence]).1.slot .sequence := by
+  decide
+
 /-- T6 for binary operations (`a.union(b)`, `a.intersection(b)`, `a.minus(b)`, `seq.append(other)`, in either operand
     order): whatever BOTH operands were asked before -/
 theorem derived2_answers_independent_of_operand_history {γ ι ν : Type} [DecidableEq ι] (g : γ → ι → ν)
